@@ -61,6 +61,10 @@ type spWorld struct {
 	sw    []*switchr.Switch
 	up    []chan frame.Frame
 	sent  chan *world.Flight
+	stat  map[string]int // frame operations carried out between rotations
+	// a world that re-runs a scenario (replaySwitched) does not report: what travel would report is kept here
+	replaying bool
+	failure   string
 }
 
 // switch log records ("failed to handle frame: ...") of all running switches, in order
@@ -95,7 +99,7 @@ func startSpWorld(n int, edges []mesh.Edge, modes []string) (*spWorld, error) {
 	if err != nil {
 		return nil, err
 	}
-	w := &spWorld{ms: ms, modes: modes, sent: make(chan *world.Flight, 256)}
+	w := &spWorld{ms: ms, modes: modes, sent: make(chan *world.Flight, 256), stat: map[string]int{}}
 	ms.W.OnSend = func(fl *world.Flight) {
 		select {
 		case w.sent <- fl:
@@ -149,6 +153,23 @@ type spScenario struct {
 	R       []int    `json:"r"`
 	MsgType int      `json:"msg_type"`
 	Payload int      `json:"payload"`
+	// what the routers do to the frame before they rotate its block (frameops.go); index = position in travelling
+	// order (0 = the sender of the trip). nil: nothing, the frame is only rotated.
+	OpsFwd [][]spOp `json:"ops_fwd,omitempty"`
+	OpsRet [][]spOp `json:"ops_ret,omitempty"`
+	// the far end answers by turning the frame it received into the answer (Reply) instead of building a new one
+	Reply bool `json:"reply,omitempty"`
+}
+
+func (sc *spScenario) opsAt(dir string, j int) []spOp {
+	o := sc.OpsFwd
+	if dir == "ret" {
+		o = sc.OpsRet
+	}
+	if j < len(o) {
+		return o[j]
+	}
+	return nil
 }
 
 type spMeta struct {
@@ -156,6 +177,7 @@ type spMeta struct {
 	dir  string
 	pos  int // position on the path (0 = source of the forward trip)
 	note string
+	ops  string // what the router did to the frame before this rotation
 }
 
 const spWait = 10 * time.Second
@@ -199,29 +221,83 @@ func (w *spWorld) travel(c *vf.Ctx, sc *spScenario) (events []any, metas []spMet
 		payload = append(payload, byte(len(payload)*7))
 	}
 
-	// trip: order = path positions in travelling order, want[j] = label the router at order[j] must take
-	trip := func(dir string, order []int, want []int, block []byte, other []byte) (handed []byte, e error) {
+	// trip: order = path positions in travelling order, want[j] = label the router at order[j] must take.
+	// reuse != nil: the frame the sender turns into the one it sends (Reply). held: the frame the far end's upper layer
+	// got, when the scenario wants it for the answer.
+	trip := func(dir string, order []int, want []int, block []byte, other []byte, reuse frame.Frame) (handed []byte, held frame.Frame, e error) {
 		w.flush()
 		spTakeLog()
 		src, dst := nodes[order[0]], nodes[order[len(order)-1]]
-		f, e := src.Builder.NewFrameV1(src.ID.IP, dst.ID.IP, frame.MessageType(sc.MsgType), block, payload, nil)
-		if e != nil {
-			return nil, fmt.Errorf("%w: new frame: %v", errSpSetup, e)
+		var f frame.Frame
+		if reuse != nil {
+			if e := reuse.Reply(block, payload, nil); e != nil {
+				reuse.ReturnToPool()
+				return nil, nil, fmt.Errorf("%w: reply: %v", errSpSetup, e)
+			}
+			f = reuse
+		} else {
+			nf, e := src.Builder.NewFrameV1(src.ID.IP, dst.ID.IP, frame.MessageType(sc.MsgType), block, payload, nil)
+			if e != nil {
+				return nil, nil, fmt.Errorf("%w: new frame: %v", errSpSetup, e)
+			}
+			f = nf
 		}
+		// what the sender does to the frame before it sends it
+		cr := newCarrier(src.Builder, f, len(order), w.stat)
+		if e := cr.applyAll(sc.opsAt(dir, 0)); e != nil {
+			return nil, nil, e
+		}
+		f = cr.f
+		pre := spWire(f)
 		// the sender takes its own label (it received the frame from nobody: label 0) and hands the frame to the link
-		before := toInts(f.SwitchBlock())
+		before := toInts(block)
 		label, e := m.NextRotateSwitchBlock(f.SwitchBlock(), 0)
 		c.Eval(1)
 		if e != nil {
-			c.Violation(vf.Key("switched-path", "sender-rotate-error"), fmt.Sprintf("path f=%v r=%v, %s trip: the sender cannot take its label from block %v: %v", sc.F, sc.R, dir, before, e), sc, nil)
-			return nil, nil
+			cr.release()
+			if w.replaying {
+				w.failure = fmt.Sprintf("the sender cannot take its label: %v", e)
+				return nil, nil, nil
+			}
+			c.Violation(vf.Key("switched-path", "sender-rotate-error"), fmt.Sprintf("path f=%v r=%v, %s trip: the sender cannot take its label from block %v of its frame: %v%s", sc.F, sc.R, dir, toInts(f.SwitchBlock()), e, joinNonEmpty("", "; ", cr.did())), sc, nil)
+			return nil, nil, nil
 		}
-		add(map[string]any{"ev": "rotate", "before": before, "recv": 0, "label": int(label), "after": toInts(f.SwitchBlock()), "want": want[0], "where": "sender of the " + dir + " trip"}, spMeta{dir: dir, pos: order[0], note: "sender"})
+		senderEv := map[string]any{"ev": "rotate", "before": before, "recv": 0, "label": int(label), "after": toInts(f.SwitchBlock()), "want": want[0], "outside": 0, "where": joinNonEmpty("; ", "sender of the "+dir+" trip", cr.did())}
+		senderMd := spMeta{dir: dir, pos: order[0], note: "sender", ops: cr.did()}
 		if int(label) != want[0] {
-			return nil, nil // judged by TLC (label order); the frame cannot go on
+			cr.release()
+			add(senderEv, senderMd)
+			return nil, nil, nil // judged by TLC (label order); the frame cannot go on
 		}
 		if e := w.sw[sc.Nodes[order[0]]-1].ForwardByLabel(f, label); e != nil {
-			return nil, fmt.Errorf("%w: sender %d cannot send by its own label %d: %v", errSpSetup, sc.Nodes[order[0]], label, e)
+			cr.release()
+			add(senderEv, senderMd)
+			return nil, nil, fmt.Errorf("%w: sender %d cannot send by its own label %d: %v", errSpSetup, sc.Nodes[order[0]], label, e)
+		}
+		// what the sender's rotation left is what is on the wire now
+		select {
+		case fl := <-w.sent:
+			if fl.From == src {
+				if wb := spWireBlock(fl.Data); wb != nil {
+					senderEv["after"] = toInts(wb)
+				}
+				o1, w1 := cr.check()
+				o2, w2 := spFrameOutside(pre, fl.Data, true)
+				senderEv["outside"] = o1 + o2
+				if o1+o2 > 0 {
+					senderEv["outside_where"] = joinNonEmpty("; ", w1, w2)
+				}
+			}
+			w.sent <- fl // the first round takes it from there
+		case <-time.After(spWait):
+			cr.release()
+			add(senderEv, senderMd)
+			return nil, nil, fmt.Errorf("%w: the frame sent by node %d never reached its link", errSpSetup, sc.Nodes[order[0]])
+		}
+		cr.release()
+		add(senderEv, senderMd)
+		if spMirror(senderEv) != "" {
+			return nil, nil, nil // what went on the wire is not the rotated block: judged by TLC; no use going on with it
 		}
 		cur := src
 		for j := 1; j < len(order); j++ {
@@ -229,92 +305,155 @@ func (w *spWorld) travel(c *vf.Ctx, sc *spScenario) (events []any, metas []spMet
 			select {
 			case fl = <-w.sent:
 			case <-time.After(spWait):
-				return nil, fmt.Errorf("%w: the frame sent by node %d never reached its link", errSpSetup, sc.Nodes[order[j-1]])
+				return nil, nil, fmt.Errorf("%w: the frame sent by node %d never reached its link", errSpSetup, sc.Nodes[order[j-1]])
 			}
 			if fl.From != cur {
-				return nil, fmt.Errorf("%w: a frame of %s is in flight, expected one of %s", errSpSetup, fl.From.Name, cur.Name)
+				return nil, nil, fmt.Errorf("%w: a frame of %s is in flight, expected one of %s", errSpSetup, fl.From.Name, cur.Name)
 			}
 			at := nodes[order[j]]
 			if fl.To != at {
-				return nil, nil // left by another link than the path's: the rotate event recorded for it says so
+				return nil, nil, nil // left by another link than the path's: the rotate event recorded for it says so
 			}
 			recvLink := at.LinkTo(cur)
 			if recvLink == nil {
-				return nil, fmt.Errorf("%w: no link %s -> %s", errSpSetup, at.Name, cur.Name)
+				return nil, nil, fmt.Errorf("%w: no link %s -> %s", errSpSetup, at.Name, cur.Name)
 			}
 			arrived, _, e := blockOfFlight(at.Builder, fl.Data)
 			if e != nil {
-				return nil, fmt.Errorf("%w: frame on the wire does not parse: %v", errSpSetup, e)
+				return nil, nil, fmt.Errorf("%w: frame on the wire does not parse: %v", errSpSetup, e)
 			}
 			// link reader: pooled buffer by size, frame at the link-frame offset
 			n := len(fl.Data)
 			ps := at.Builder.GetPooledSlice(peering.FrameOffset + n + peering.FrameOverhead)
 			if ps == nil {
-				return nil, fmt.Errorf("%w: no pooled slice", errSpSetup)
+				return nil, nil, fmt.Errorf("%w: no pooled slice", errSpSetup)
 			}
 			copy(ps[peering.FrameOffset:], fl.Data)
 			g, e := at.Builder.ParseFrame(ps[peering.FrameOffset:peering.FrameOffset+n], ps[:cap(ps)], peering.FrameOffset)
 			if e != nil {
-				return nil, fmt.Errorf("%w: parse: %v", errSpSetup, e)
+				return nil, nil, fmt.Errorf("%w: parse: %v", errSpSetup, e)
 			}
 			g.SetRecvLink(recvLink)
+			// what this router does to the frame before its switch gets it
+			cr := newCarrier(at.Builder, g, len(order)-j, w.stat)
+			if e := cr.applyAll(sc.opsAt(dir, j)); e != nil {
+				return nil, nil, e
+			}
+			g = cr.f
+			pre := spWire(g)
+			did := cr.did()
 			select {
 			case w.sw[sc.Nodes[order[j]]-1].Input() <- g: // a RUNNING switch worker takes it
 			case <-time.After(spWait):
-				return nil, fmt.Errorf("%w: no switch worker of node %d took the frame", errSpSetup, sc.Nodes[order[j]])
+				cr.release()
+				return nil, nil, fmt.Errorf("%w: no switch worker of node %d took the frame", errSpSetup, sc.Nodes[order[j]])
 			}
 			c.Eval(1)
-			where := fmt.Sprintf("running switch worker of a router in %s mode, %s trip", sc.Modes[order[j]], dir)
-			select {
-			case out := <-w.sent:
+			where := joinNonEmpty("; ", fmt.Sprintf("running switch worker of a router in %s mode, %s trip", sc.Modes[order[j]], dir), did)
+			// what became of it: forwarded, escalated, refused (the switch logs it) or nothing at all
+			var out *world.Flight
+			var h frame.Frame
+			refused := ""
+			deadline := time.After(spWait)
+			tick := time.NewTicker(20 * time.Millisecond)
+		wait:
+			for {
+				select {
+				case out = <-w.sent:
+					break wait
+				case h = <-w.up[sc.Nodes[order[j]]-1]:
+					break wait
+				case <-tick.C:
+					if refused = spRefusedLine(); refused != "" {
+						break wait
+					}
+				case <-deadline:
+					refused = spRefusedLine()
+					break wait
+				}
+			}
+			tick.Stop()
+			switch {
+			case out != nil:
 				if out.From != at {
-					return nil, fmt.Errorf("%w: a frame of %s is in flight, expected one of %s", errSpSetup, out.From.Name, at.Name)
+					cr.release()
+					return nil, nil, fmt.Errorf("%w: a frame of %s is in flight, expected one of %s", errSpSetup, out.From.Name, at.Name)
 				}
 				outLink := at.LinkTo(out.To)
 				after, msg, e := blockOfFlight(at.Builder, out.Data)
 				if e != nil || outLink == nil {
-					return nil, fmt.Errorf("%w: forwarded frame does not parse / unknown link: %v", errSpSetup, e)
+					cr.release()
+					return nil, nil, fmt.Errorf("%w: forwarded frame does not parse / unknown link: %v", errSpSetup, e)
 				}
 				if !bytes.Equal(msg, payload) {
-					return nil, fmt.Errorf("%w: a foreign frame left node %d", errSpSetup, sc.Nodes[order[j]])
+					cr.release()
+					return nil, nil, fmt.Errorf("%w: a foreign frame left node %d", errSpSetup, sc.Nodes[order[j]])
 				}
-				add(map[string]any{"ev": "rotate", "before": toInts(arrived), "recv": int(recvLink.SwitchLabel()), "label": int(outLink.SwitchLabel()), "after": toInts(after), "want": want[j], "where": where}, spMeta{dir: dir, pos: order[j], note: "forwarded to " + out.To.Name})
-				if j == len(order)-1 {
-					return nil, nil // the last router of the path forwarded the frame: judged by TLC (want = 0)
+				o1, w1 := cr.check()
+				o2, w2 := spFrameOutside(pre, out.Data, true)
+				ev := map[string]any{"ev": "rotate", "before": toInts(arrived), "recv": int(recvLink.SwitchLabel()), "label": int(outLink.SwitchLabel()), "after": toInts(after), "want": want[j], "outside": o1 + o2, "where": where}
+				if o1+o2 > 0 {
+					ev["outside_where"] = joinNonEmpty("; ", w1, w2)
+				}
+				add(ev, spMeta{dir: dir, pos: order[j], note: "forwarded to " + out.To.Name, ops: did})
+				if j == len(order)-1 || spMirror(ev) != "" {
+					// the last router of the path forwarded the frame (want = 0), or what left is not the rotated block:
+					// judged by TLC; no use going on with it
+					return nil, nil, nil
 				}
 				w.sent <- out // the next round takes it from there
 				cur = at
-			case h := <-w.up[sc.Nodes[order[j]]-1]:
+			case h != nil:
 				if !bytes.Equal(h.MessageData(), payload) {
-					return nil, fmt.Errorf("%w: a foreign frame was escalated at node %d", errSpSetup, sc.Nodes[order[j]])
+					cr.release()
+					return nil, nil, fmt.Errorf("%w: a foreign frame was escalated at node %d", errSpSetup, sc.Nodes[order[j]])
 				}
-				blk := append([]byte(nil), h.SwitchBlock()...)
-				h.ReturnToPool()
+				blk := append([]byte(nil), h.SwitchBlock()...) // what the upper layer reads
+				post := spWire(h)
+				carried := append([]byte(nil), spWireBlock(post)...) // what the frame carries (would go on the wire)
+				o1, w1 := cr.check()
+				o2, w2 := spFrameOutside(pre, post, false)
+				last := j == len(order)-1
+				if last && dir == "fwd" && sc.Reply {
+					held = h
+				} else {
+					h.ReturnToPool()
+				}
 				// escalated = the switch says "the next label is 0, this router is the destination"
-				add(map[string]any{"ev": "rotate", "before": toInts(arrived), "recv": int(recvLink.SwitchLabel()), "label": 0, "after": toInts(blk), "want": want[j], "where": where}, spMeta{dir: dir, pos: order[j], note: "escalated"})
-				if j != len(order)-1 {
-					return nil, nil // a relay kept the frame: judged by TLC (want != 0)
+				ev := map[string]any{"ev": "rotate", "before": toInts(arrived), "recv": int(recvLink.SwitchLabel()), "label": 0, "after": toInts(carried), "want": want[j], "outside": o1 + o2, "where": where}
+				if o1+o2 > 0 {
+					ev["outside_where"] = joinNonEmpty("; ", w1, w2)
 				}
-				add(map[string]any{"ev": "arrive", "n": k + 1, "f": sc.F, "r": sc.R, "dir": dir, "block": toInts(blk), "where": "upper layer of a router in " + sc.Modes[order[j]] + " mode"}, spMeta{dir: dir, pos: order[j], note: "arrive"})
+				add(ev, spMeta{dir: dir, pos: order[j], note: "escalated", ops: did})
+				if !last || spMirror(ev) != "" {
+					if held != nil {
+						held.ReturnToPool()
+					}
+					return nil, nil, nil // a relay kept the frame (want != 0) / the frame does not carry the rotated block: judged by TLC
+				}
+				add(map[string]any{"ev": "arrive", "n": k + 1, "f": sc.F, "r": sc.R, "dir": dir, "block": toInts(blk), "where": joinNonEmpty("; ", "upper layer of a router in "+sc.Modes[order[j]]+" mode", did)}, spMeta{dir: dir, pos: order[j], note: "arrive", ops: did})
 				rev := append([]byte(nil), blk...)
 				m.TransformToReturnBlock(rev)
 				c.Eval(1)
-				add(map[string]any{"ev": "reverse", "before": toInts(blk), "after": toInts(rev), "want": toInts(other), "where": "upper layer of a router in " + sc.Modes[order[j]] + " mode"}, spMeta{dir: dir, pos: order[j], note: "reverse"})
-				return rev, nil
-			case <-time.After(spWait):
-				logs := spTakeLog()
-				for _, l := range logs {
-					if strings.HasPrefix(l, "failed to handle frame") {
-						// a valid path over existing links: the running switch could not rotate the block or found no link
-						// for the label it took from it
-						c.Violation(vf.Key("switched-path", "refused", sc.Modes[order[j]], dir), fmt.Sprintf("path f=%v r=%v (modes %v), %s trip: the running switch of the router at position %d (%s mode) dropped the frame that arrived with block %v on the link with label %d: %s", sc.F, sc.R, sc.Modes, dir, order[j], sc.Modes[order[j]], toInts(arrived), recvLink.SwitchLabel(), l), sc, func() bool { return replaySwitched(c, sc) != "" })
-						return nil, nil
-					}
+				add(map[string]any{"ev": "reverse", "before": toInts(blk), "after": toInts(rev), "want": toInts(other), "where": "upper layer of a router in " + sc.Modes[order[j]] + " mode"}, spMeta{dir: dir, pos: order[j], note: "reverse", ops: did})
+				return rev, held, nil
+			case refused != "":
+				cr.release()
+				spTakeLog()
+				if w.replaying {
+					w.failure = "the running switch dropped the frame: " + refused
+					return nil, nil, nil
 				}
-				return nil, fmt.Errorf("%w: the frame handed to the switch of node %d was neither forwarded nor escalated within %v (no error logged)", errSpSetup, sc.Nodes[order[j]], spWait)
+				// a valid path over existing links: the running switch could not rotate the block or found no link
+				// for the label it took from it
+				c.Violation(vf.Key("switched-path", "refused", sc.Modes[order[j]], dir), fmt.Sprintf("path f=%v r=%v (modes %v), %s trip: the running switch of the router at position %d (%s mode) dropped the frame that arrived with block %v on the link with label %d: %s%s", sc.F, sc.R, sc.Modes, dir, order[j], sc.Modes[order[j]], toInts(arrived), recvLink.SwitchLabel(), refused, joinNonEmpty("", "; ", did)), sc, func() bool { return replaySwitched(c, sc) != "" })
+				return nil, nil, nil
+			default:
+				cr.release()
+				return nil, nil, fmt.Errorf("%w: the frame handed to the switch of node %d was neither forwarded nor escalated within %v (no error logged)", errSpSetup, sc.Nodes[order[j]], spWait)
 			}
 		}
-		return nil, nil
+		return nil, nil, nil
 	}
 
 	fwdOrder := make([]int, k+1)
@@ -325,13 +464,29 @@ func (w *spWorld) travel(c *vf.Ctx, sc *spScenario) (events []any, metas []spMet
 		retOrder[i] = k - i
 		retWant[i] = sc.R[k-i]
 	}
-	answer, err := trip("fwd", fwdOrder, sc.F, sp.ForwardBlock, sp.ReturnBlock)
+	answer, held, err := trip("fwd", fwdOrder, sc.F, sp.ForwardBlock, sp.ReturnBlock, nil)
 	if err != nil || answer == nil {
+		if held != nil {
+			held.ReturnToPool()
+		}
 		return events, metas, err
 	}
 	// the destination answers with what it holds (as a real destination would: it knows nothing else of the path)
-	_, err = trip("ret", retOrder, retWant, answer, sp.ForwardBlock)
+	_, _, err = trip("ret", retOrder, retWant, answer, sp.ForwardBlock, held)
 	return events, metas, err
+}
+
+// spRefusedLine returns the first "failed to handle frame" record the running switches logged since the log was
+// taken last ("" = none); the log is left as it is.
+func spRefusedLine() string {
+	spLog.Lock()
+	defer spLog.Unlock()
+	for _, l := range spLog.lines {
+		if strings.HasPrefix(l, "failed to handle frame") {
+			return l
+		}
+	}
+	return ""
 }
 
 // spMirror names what is wrong with a recorded event ("" = nothing): the trace predicate of SwitchLabel_Trace once
@@ -354,9 +509,12 @@ func spMirror(ev map[string]any) string {
 			return fmt.Sprintf("the frame left by the link with label %d; the next label of block %v is %d, the path's label here is %d", ev["label"], ints("before"), label, ev["want"])
 		case !bytes.Equal(blk, toBytes(ints("after"))):
 			if ev["label"].(int) == 0 {
-				return fmt.Sprintf("the frame arrived with block %v on the link with label %d and was handed to the router's upper layer with block %v; the protocol's rotation of this hop leaves %v (zero label consumed, label of the receiving link written)", ints("before"), ev["recv"], ints("after"), toInts(blk))
+				return fmt.Sprintf("the frame arrived with block %v on the link with label %d and was handed to the router's upper layer carrying block %v; the protocol's rotation of this hop leaves %v (zero label consumed, label of the receiving link written)", ints("before"), ev["recv"], ints("after"), toInts(blk))
 			}
 			return fmt.Sprintf("the frame arrived with block %v on the link with label %d and left with block %v; the protocol's rotation of this hop leaves %v", ints("before"), ev["recv"], ints("after"), toInts(blk))
+		}
+		if o, _ := ev["outside"].(int); o > 0 {
+			return fmt.Sprintf("the rotation of block %v changed memory that is not part of the block the frame carries: %v", ints("before"), ev["outside_where"])
 		}
 	case "reverse", "arrive":
 		// named by the caller
@@ -382,11 +540,15 @@ func replaySwitched(c *vf.Ctx, sc *spScenario) string {
 		return ""
 	}
 	defer w.stop()
+	w.replaying = true
 	evs, _, err := w.travel(c, &cp)
 	if err != nil {
 		return ""
 	}
-	return spJudge(&cp, evs)
+	if s := spJudge(&cp, evs); s != "" {
+		return s
+	}
+	return w.failure
 }
 
 // spJudge applies the mirror to all events of one scenario.
@@ -395,6 +557,25 @@ func spJudge(sc *spScenario, evs []any) string {
 		ev := e.(map[string]any)
 		if s := spMirror(ev); s != "" {
 			return s
+		}
+		if ev["ev"] == "arrive" {
+			// Arrive of the trace specification: what the upper layer reads reverses to the path's other block
+			blk := toBytes(ev["block"].([]int))
+			m.TransformToReturnBlock(blk)
+			hops := make([]m.SwitchHop, len(sc.F))
+			for i := range hops {
+				hops[i] = m.SwitchHop{ForwardLabel: m.SwitchLabel(sc.F[i]), ReturnLabel: m.SwitchLabel(sc.R[i])}
+			}
+			sp := m.SwitchPath{Hops: hops}
+			if sp.BuildBlocks() == nil {
+				wnt := sp.ReturnBlock
+				if ev["dir"] == "ret" {
+					wnt = sp.ForwardBlock
+				}
+				if !bytes.Equal(blk, wnt) {
+					return fmt.Sprintf("the upper layer of the router at the far end reads block %v from the frame, which reverses to %v; the path's block is %v", ev["block"], toInts(blk), toInts(wnt))
+				}
+			}
 		}
 		if ev["ev"] == "reverse" {
 			a, _ := ev["after"].([]int)
@@ -420,6 +601,11 @@ func switchedPaths(c *vf.Ctx, rng *rand.Rand) {
 	perMesh := c.Pick(20, 40)
 	nChain := c.Pick(2, 30)
 	paths := 0
+	// the frame operations have a PRNG of their own (derived from the seed): the meshes and paths drawn from rng are
+	// the same with and without them
+	orng := rand.New(rand.NewSource(c.Seed*7919 + 12))
+	opStat := map[string]int{}   // operations carried out
+	rotAfter := map[string]int{} // rotations of a frame that had been moved / given an appendix in place / ..., by outcome
 	label := func() m.SwitchLabel {
 		switch rng.Intn(4) {
 		case 0:
@@ -444,7 +630,19 @@ func switchedPaths(c *vf.Ctx, rng *rand.Rand) {
 				sc.R[i] = int(w.ms.Node(id).LinkTo(w.ms.Node(route[i-1])).SwitchLabel())
 			}
 		}
+		// what the routers do to the frame between the rotations: nothing on every fourth path, else a drawn plan
+		if paths%4 != 3 {
+			sc.OpsFwd, sc.OpsRet = make([][]spOp, k+1), make([][]spOp, k+1)
+			for i := 0; i <= k; i++ {
+				sc.OpsFwd[i], sc.OpsRet[i] = spDrawOps(orng), spDrawOps(orng)
+			}
+			sc.Reply = orng.Intn(2) == 0
+		}
 		evs, mds, err := w.travel(c, sc)
+		for kk, v := range w.stat {
+			opStat[kk] += v
+			delete(w.stat, kk)
+		}
 		events = append(events, evs...)
 		metas = append(metas, mds...)
 		if err != nil {
@@ -473,6 +671,19 @@ func switchedPaths(c *vf.Ctx, rng *rand.Rand) {
 				}
 			case strings.HasPrefix(md.note, "forwarded"):
 				relayBy[sc.Modes[md.pos]]++
+			}
+			if md.note == "sender" || md.note == "escalated" || strings.HasPrefix(md.note, "forwarded") {
+				kind := strings.SplitN(md.note, " ", 2)[0]
+				switch {
+				case strings.Contains(md.ops, "the frame moved"):
+					rotAfter["moved to a bigger buffer/"+kind]++
+				case strings.Contains(md.ops, "in place"):
+					rotAfter["appendix in place/"+kind]++
+				case md.ops != "":
+					rotAfter["other operations/"+kind]++
+				default:
+					rotAfter["none/"+kind]++
+				}
 			}
 		}
 		c.Distinct(fmt.Sprintf("switched|%d|%s|%s>%s|%d", k+1, classVec(sc.F, sc.R), sc.Modes[0], sc.Modes[k], sc.MsgType))
@@ -636,7 +847,7 @@ func switchedPaths(c *vf.Ctx, rng *rand.Rand) {
 	}
 	c.AddTraces(paths)
 	c.AddModel(tres.Distinct, tres.Generated)
-	c.Stage("T-switched-paths", map[string]any{"meshes": nMesh, "chains": nChain, "paths": paths, "paths_by_hops": byHops, "events": len(events), "last_rotation_by_mode": lastBy, "last_rotation_by_links": deadEnd, "relays_by_mode": relayBy, "wall_s": time.Since(t0).Seconds()})
+	c.Stage("T-switched-paths", map[string]any{"meshes": nMesh, "chains": nChain, "paths": paths, "paths_by_hops": byHops, "events": len(events), "last_rotation_by_mode": lastBy, "last_rotation_by_links": deadEnd, "relays_by_mode": relayBy, "frame_operations": opStat, "rotations_after": rotAfter, "wall_s": time.Since(t0).Seconds()})
 	if rejectAt > 0 || inv != "" {
 		ev := events[rejectAt-1].(map[string]any)
 		md := metas[rejectAt-1]
@@ -667,7 +878,7 @@ func switchedPaths(c *vf.Ctx, rng *rand.Rand) {
 			last = ", the LAST hop of the trip"
 		}
 		c.Violation(vf.Key("switched-path", ev["ev"], mode, md.dir),
-			fmt.Sprintf("path f=%v r=%v (router modes %v, message type %d) travelled through running switch workers, %s trip, router at position %d in %s mode%s: %s (trace line %d, %s event)", sc.F, sc.R, sc.Modes, sc.MsgType, md.dir, md.pos, mode, last, what, rejectAt, ev["ev"]),
+			fmt.Sprintf("path f=%v r=%v (router modes %v, message type %d) travelled through running switch workers, %s trip, router at position %d in %s mode%s: %s%s (trace line %d, %s event)", sc.F, sc.R, sc.Modes, sc.MsgType, md.dir, md.pos, mode, last, what, joinNonEmpty("", "; ", md.ops), rejectAt, ev["ev"]),
 			map[string]any{"scenario": sc, "event": ev}, repro)
 		c.Logf("T switched paths: %d paths through running switches, trace line %d of %d rejected", paths, rejectAt, len(events))
 		return
@@ -682,7 +893,14 @@ func switchedPaths(c *vf.Ctx, rng *rand.Rand) {
 	if relayBy["normal"] == 0 || relayBy["lite"] == 0 || deadEnd["single link"] == 0 || deadEnd["several links"] == 0 {
 		c.Broken("switched paths: relays passed: %v, last rotations: %v", relayBy, deadEnd)
 	}
-	c.Logf("T switched paths: %d paths (%d meshes, %d chains) through running switches, %d events validated; hops %v, last rotation by mode %v, by links %v; %.1fs", paths, nMesh, nChain, len(events), byHops, lastBy, deadEnd, time.Since(t0).Seconds())
+	// the frames were not only rotated: blocks were rotated after the frame had moved to another buffer (by relays, by
+	// last hops and by senders), after an appendix in place, and on frames nothing else was done to
+	for _, kk := range []string{"moved to a bigger buffer/forwarded", "moved to a bigger buffer/escalated", "moved to a bigger buffer/sender", "appendix in place/forwarded", "none/forwarded", "none/escalated"} {
+		if rotAfter[kk] == 0 {
+			c.Broken("switched paths: no rotation of the kind %q (%v)", kk, rotAfter)
+		}
+	}
+	c.Logf("T switched paths: %d paths (%d meshes, %d chains) through running switches, %d events validated; hops %v, last rotation by mode %v, by links %v; frame operations between rotations %v, rotations after %v; %.1fs", paths, nMesh, nChain, len(events), byHops, lastBy, deadEnd, opStat, rotAfter, time.Since(t0).Seconds())
 }
 
 // spFindPath draws a simple path src..dst of at most maxLen routers whose inner routers all relay (no stub mode).
